@@ -709,7 +709,11 @@ func (fr *Frame) callAssertsPhase(x *ssa.Call, callee string, ord int, after boo
 			phase = "after:"
 		}
 		fr.oblige("assert", fmt.Sprintf("assert:%s%s#%d%s", phase, callee, ord, lbl), ca.Clause.Props, tv.T, ca.Clause.Src, x.Pos(), "")
-		fr.assumeHere(tv.T, "cut")
+		if hasProp(ca.Clause.Props, "scoped") {
+			fr.vc().assumeScoped(implies(fr.reach, tv.T), ca.Clause.Props)
+		} else {
+			fr.assumeHere(tv.T, "cut")
+		}
 	}
 }
 
@@ -954,6 +958,11 @@ func (fr *Frame) modularCall(x *ssa.Call, callee *ssa.Function, ord int) {
 		facts = append(facts, fr.havocMemFacts(m, mod[m], pre, post, tag, modF, modA))
 	}
 	// 4. results
+	type scopedFact struct {
+		f    string
+		tags []string
+	}
+	var scoped []scopedFact
 	var results []TV
 	rs := callee.Signature.Results()
 	rvars := map[string]TV{}
@@ -982,7 +991,11 @@ func (fr *Frame) modularCall(x *ssa.Call, callee *ssa.Function, ord int) {
 				vc.addErr("%s:%d: ensures (at call in %s): %v", c.File, c.Line, fr.label, err)
 				continue
 			}
-			facts = append(facts, quantify(tv.T))
+			if hasProp(c.Props, "scoped") {
+				scoped = append(scoped, scopedFact{quantify(tv.T), c.Props})
+			} else {
+				facts = append(facts, quantify(tv.T))
+			}
 			if c.Kind == "defines" {
 				vc.note("definition by the code (assumed, justified by purity C13): " + name + ": " + c.Src)
 			}
@@ -992,6 +1005,9 @@ func (fr *Frame) modularCall(x *ssa.Call, callee *ssa.Function, ord int) {
 		facts = append(facts, fr.typeInvs(post))
 	}
 	fr.assumeHere(and(facts...), "call")
+	for _, sf := range scoped {
+		vc.assumeScoped(implies(fr.reach, sf.f), sf.tags)
+	}
 	fr.setResult(x, results)
 	fr.callAssertsPhase(x, name, ord, true)
 }
